@@ -13,6 +13,7 @@ CONSTANTS Names = {"n1","n2"}
           Depths = {1,2}
           MaxNow = 1
           MaxSeq = 1
+          Procs = {}
           Devs = {}
 INVARIANTS ChainResult RecursionErrorIffTooLong ReadYourPublish MinNonZeroTTL CacheCoherent DsRoutingAgree
            ExplicitSeqMustIncrease PublishStores CacheBounded
